@@ -1269,7 +1269,7 @@ Lemma QInv_init : forall li fi hi spi lo fo ho spo,
   QInv hi ho spi spo (binit2 (sinit li fi hi [] spi) (sinit lo fo ho [] spo)).
 Proof.
   intros li fi hi spi lo fo ho spo Hi Ho. unfold QInv. cbn.
-  split; constructor; cbn; auto; try (intros; discriminate); repeat split; auto.
+  split; constructor; cbn; auto; try (intros; discriminate); repeat split; auto; try (intros; discriminate).
 Qed.
 
 Lemma QInv_run : forall hi ho spi spo l s0,
@@ -1336,7 +1336,7 @@ Definition nvq_hi := [mkMsg 0 1 true; mkMsg 13 2 true; mkMsg 0 3 true].
 Definition nvq_ho := [mkMsg 0 11 true; mkMsg 13 12 true].
 Definition nvq_sched : list baction :=
   repeat BA 60 ++ [BEmit DIn; BEmit DOut]
-  ++ concat (repeat [BR DIn; BX DIn; BR DOut; BX DOut] 12).
+  ++ concat (repeat [BR DIn; BX DIn; BR DOut; BX DOut] 30).
 
 Lemma nonvacuous_quiet :
   let s := brun (mkBC false true) nvq_sched
@@ -1505,3 +1505,23 @@ Proof.
     constructor; unfold init; cbn; auto; [intros; discriminate | apply a_begin_e]. }
   destruct H; auto.
 Qed.
+
+(** Disabling synchronous mode discards what is queued (by design); a packet add_sync_event is
+    saving at that very moment is dropped the same way (the only way [dropped] grows). *)
+Lemma sync_disable_may_drop :
+  let cfg := mkConfig true false 3 false false false false in
+  let s := run cfg ([Emit] ++ repeat (Step TR) 6 ++ [Step TA; Step TA] ++ repeat (Step TC) 4
+                    ++ [Step TA; Step TA] ++ [Step TC])
+               (init cfg [OSync 1; OSync 0] [[Some (mkMsg 0 1 true)]] false) in
+  dropped s = [mkMsg 0 1 true] /\ sync_mode s = 0.
+Proof. vm_compute. split; reflexivity. Qed.
+
+(** A stale message filter on a device whose bridge is created UNDER TRAFFIC: the reader
+    thread is between the two filter loads of put_message when Bridge.__init__ resets the filter
+    to None; it then calls None and dies (TypeError).  Known finding
+    filter-reset-races-put-message. *)
+Lemma bridge_stale_filter_reader_dies :
+  exists sched,
+    d_rpc (b_in (brun (mkBC false false) sched
+                   (binit2 (sinit true (Some 3) [] [] [[Some p1]]) (sinit false None [] [] [])))) = BR_Dead.
+Proof. exists ([BEmit DIn] ++ repeat (BR DIn) 3 ++ [BA] ++ [BR DIn]). vm_compute. reflexivity. Qed.
